@@ -1,6 +1,7 @@
 package main
 
 import (
+	"bytes"
 	"encoding/json"
 	"fmt"
 	"strings"
@@ -310,12 +311,10 @@ func c02DrvOne(s *c02Drv, segIdx int) verdict {
 	fin, pan := withWatchdog(20*time.Second, func() { r, err = sess.d.Get("") })
 	want, _ := concPayloadU(s.Result, 101, s.ID)
 
-	if s.Version == "1.1" {
-		for _, line := range strings.Split(want, "\n")[1:] {
-			if strings.HasPrefix(line, "##") {
-				sigTag = ":data-line-starts-with-##"
-			}
-		}
+	// the input class of the known finding: on the wire, a line starts with "##" before the end-of-chunks marker - a data
+	// line of the payload, or a chunk whose data starts with "##" (chunk data always follows the LF of its header)
+	if s.Version == "1.1" && len(reply) > 4 && bytes.Contains(reply[:len(reply)-4], []byte("\n##")) {
+		sigTag = ":data-line-starts-with-##"
 	}
 
 	switch {
